@@ -53,12 +53,12 @@ THETA_PROFILES = {
     "TB": dict(MaxRecs=3, MaxItems=3, MaxParams=6, MaxEdits=2, Forms="{1, 3, 5}",
                LowKinds='{"none", "inf", "val"}', UpKinds='{"none", "val"}', Reps="{2}",
                NameOpts="{TRUE, FALSE}", SpOpts="{0, 1}", RepNames="FALSE", TailForms="{1, 3, 5}",
-               TailLowKinds='{"none", "val"}', TailUpKinds='{"none", "val"}', NEditVals=1, NSlices=40),
+               TailLowKinds='{"none", "val"}', TailUpKinds='{"none", "val"}', NEditVals=1, NSlices=300),
     # thorough: three edits on small layouts
     "TC": dict(MaxRecs=2, MaxItems=2, MaxParams=4, MaxEdits=3, Forms="{1, 3, 5}",
                LowKinds='{"none", "val"}', UpKinds='{"none", "val"}', Reps="{2}",
                NameOpts="{TRUE}", SpOpts="{0}", RepNames="FALSE", TailForms="{1, 3}",
-               TailLowKinds='{"none"}', TailUpKinds='{"none"}', NEditVals=1, NSlices=8),
+               TailLowKinds='{"none"}', TailUpKinds='{"none"}', NEditVals=1, NSlices=2),
 }
 THETA_ACTIONS = [("DoNewRecord", "DoSameRecord", "AddItem"), "StartEdit", ("DoSetInit", "SetInit"),
                  ("DoSetLower", "SetLower"), ("DoSetUpper", "SetUpper"), ("DoFix", "Fix"), ("DoUnfix", "Unfix"),
